@@ -208,6 +208,24 @@ def work(chunk, st):
         check_peer(task, st)
 
 
+def work_multi_json(chunk, st):
+    """the JSON document of a multi-target run stays one well-formed array whatever the individual targets do"""
+    from props import multitarget as MT
+    for bad, opt, order in chunk:
+        archs = [bad, 'CLEAN'] if order == 0 else ['CLEAN', bad]
+        res, _s = MT.run_multi(archs, 1, 'text', (), ('connect',), None, extra=[opt])
+        st.execution(res.world, outcome=('multi-json', res.status, opt), root=('multi-json', bad, opt, order), nontrivial=('multi-json', bad, opt, order))
+        d = {'targets': archs, 'option': opt, 'status': res.status, 'stdout_head': res.stdout[:300]}
+        try:
+            doc = json.loads(res.stdout)
+        except ValueError as e:
+            st.violation('multi-target-json-not-one-document:%s' % opt, dict(d, error=str(e)))
+            continue
+        if not isinstance(doc, list) or len(doc) != 2:
+            st.violation('multi-target-json-shape:%s' % opt, dict(d, got=type(doc).__name__))
+    st.sample({'multi_target_json': [list(c) for c in chunk[:2]]}, cap=3)
+
+
 def work_zoo(chunk, st):
     from props import zoo
     for name in chunk:
@@ -259,8 +277,9 @@ def run(tier, seed):
     ps = peers(tier)
     st = par.pmap(work, list(ps.items()), chunk=1)
     hashseed_runs(tier, st)
-    from props import zoo
+    from props import zoo, multitarget as MT
     par.pmap(work_zoo, zoo.names(tier), stats=st, chunk=4)
+    par.pmap(work_multi_json, [(b, o, k) for b in sorted(MT.FAILING) for o in ('-j', '-jj') for k in (0, 1)], stats=st, chunk=4)
     vcases = []
     osets = optsets()
     for pname, spec in ps.items():
@@ -274,7 +293,7 @@ def run(tier, seed):
         PID, tier, seed, st, t0,
         rule='%d peers covering every severity mix (clean, warn-only, failures, Terrapin, unknown, gss, small RSA, small/OpenSSH GEX, SSH-1, header, '
              'certificate, compression, non-ASCII banner%s) x all %d combinations of -b, -v, -n, -l {info,warn,fail}, {text,-j,-jj}, each run twice; '
-             'fresh interpreters under PYTHONHASHSEED 0/1/2/random for selected peers; the peers of props/zoo.py x %d option sets' % (len(ps), ', 24 database slices' if tier != 'quick' else '', len(optsets()), len(ZOO_OPTSETS)),
+             'fresh interpreters under PYTHONHASHSEED 0/1/2/random for selected peers; the peers of props/zoo.py x %d option sets; -T with every failing archetype next to a healthy target under -j and -jj (one well-formed array)' % (len(ps), ', 24 database slices' if tier != 'quick' else '', len(optsets()), len(ZOO_OPTSETS)),
         assumptions=['with colours on, a line\'s level is read from its colour', 'JSON compared with text for names the database knows'],
         exhaustive=True, traces_validated=validated)
 
